@@ -198,7 +198,10 @@ package xmpp
 // An error that ends the session is never turned into a nil result.
 //@ func (*Session).Serve
 //@   ghost lastErr error
+// the close deadline in force is the one current at each iteration
+// (SetCloseDeadline replaces the context while Serve is running)
 //@   callsite (context.Context).Done#1
+//@     assert[C10] arg0 == s.in.ctx
 //@     before: lastErr = nil
 //@   callsite handleInputStream#1
 //@     after: lastErr = ret0
@@ -239,6 +242,15 @@ package xmpp
 //@     after: want = ret0
 // receiving side: the reply carries the request id; a refusal by the
 // application is an error reply and is not reported as a bound session
+// without an application callback the resource is a random id drawn for this
+// negotiation (not one shared by every session that uses the feature value)
+//@   ghost rid string
+//@   ghost drew bool = false
+//@   callsite mellium.im/xmpp/internal/attr.RandomID#1
+//@     after: rid = ret0
+//@     after: drew = true
+//@   callsite (mellium.im/xmpp/jid.JID).WithResource#1
+//@     assert[C12] drew && arg1 == rid
 //@   ghost refused bool = false
 //@   callsite (*bindIQ).WriteXML#1
 //@     preserves session.state, session.negotiated, session.features, session.in.d
@@ -735,6 +747,18 @@ package xmpp
 
 //@ func (*Session).Close
 //@   ensures[C10] s.state == old(s.state) | OutputStreamClosed
+// the closing tag is written while holding the output lock (so it cannot land
+// inside an element another goroutine is in the middle of sending) and the
+// state lock
+//@   ghost outHeld bool = false
+//@   ghost stHeld bool = false
+//@   callsite (sync.Locker).Lock#1
+//@     assert[C10] arg0 == s.out.Locker
+//@     after: outHeld = true
+//@   callsite (*sync.RWMutex).Lock#1
+//@     after: stHeld = true
+//@   callsite (*Session).closeSession#1
+//@     assert[C10] outHeld && stHeld
 
 // Transmit entry points: nothing is handed to the encoder once the output is
 // closed, and the caller is told so.
